@@ -91,6 +91,10 @@ func cli(env *core.Env, root string, stdin []byte, args ...string) *sut.Result {
 		full = append(append([]string{}, args...), flags...)
 	} else {
 		full = append(flags, args...)
+		// the last positional argument may be set off with `--`
+		if n := len(full); (h>>13)%8 == 0 && n >= 3 && !strings.HasPrefix(full[n-1], "-") && full[n-1] != "" && !strings.HasPrefix(full[n-2], "-") {
+			full = append(full[:n-1:n-1], "--", full[n-1])
+		}
 	}
 	// neither may the environment of the process (only what the tool has no business reading is varied)
 	var extra []string
